@@ -37,6 +37,9 @@ pub struct ConnEv {
 pub struct ConnCase {
     pub defs: Vec<InstrumentDef>,
     pub events: Vec<ConnEv>,
+    /// bit e set: the engine state is built with seeded balances for the assets of exchange index e
+    #[serde(default)]
+    pub seed_balances: u8,
 }
 
 pub struct ConnectivityModel;
@@ -65,8 +68,8 @@ impl Check for ConnectivityModel {
             Tier::Quick => 40,
             Tier::Thorough => 80,
         };
-        (simple_world(1..=4, 0..3), prop::collection::vec((kind(), 0u8..4, any::<u8>()), 0..max))
-            .prop_map(|(defs, evs)| ConnCase { defs, events: evs.into_iter().map(|(kind, ex, variant)| ConnEv { kind, ex, variant }).collect() })
+        (simple_world(1..=4, 0..3), prop::collection::vec((kind(), 0u8..4, any::<u8>()), 0..max), prop_oneof![2 => Just(0u8), 1 => 1u8..16])
+            .prop_map(|(defs, evs, seed_balances)| ConnCase { defs, events: evs.into_iter().map(|(kind, ex, variant)| ConnEv { kind, ex, variant }).collect(), seed_balances })
             .boxed()
     }
 
@@ -75,7 +78,22 @@ impl Check for ConnectivityModel {
         macro_rules! bad {
             ($sig:expr, $($fmt:tt)+) => {{ rep.fail($sig, format!($($fmt)+)); return rep; }};
         }
-        let mut rig = Rig::new(&case.defs, &[Link::Healthy; 8], TradingState::Disabled);
+        let mut rig = {
+            let indexed = crate::props::world::index(&case.defs);
+            // balances known before the run (a builder option) for the exchanges selected by the mask
+            let seeded: Vec<barter_instrument::Keyed<barter_instrument::asset::ExchangeAsset<barter_instrument::asset::name::AssetNameInternal>, barter_execution::balance::Balance>> = indexed
+                .assets()
+                .iter()
+                .filter(|a| indexed.find_exchange_index(a.value.exchange).is_ok_and(|e| case.seed_balances & (1 << e.index()) != 0))
+                .map(|a| barter_instrument::Keyed::new(barter_instrument::asset::ExchangeAsset::new(a.value.exchange, a.value.asset.name_internal.clone()), barter_execution::balance::Balance::new(rust_decimal::Decimal::from(1000), rust_decimal::Decimal::from(1000))))
+                .collect();
+            let state = barter::engine::state::EngineState::builder(&indexed, barter::engine::state::global::DefaultGlobalData, barter::engine::state::instrument::data::DefaultInstrumentMarketData::default)
+                .time_engine_start(crate::props::gens::ts(crate::props::gens::T0_MS))
+                .trading_state(TradingState::Disabled)
+                .balances(seeded)
+                .build();
+            Rig::with_state(indexed, state, &[Link::Healthy; 8])
+        };
         let n_ex = rig.n_exchanges();
         let indexed = rig.indexed.clone();
         let mut resolver = Resolver::new(&indexed);
@@ -88,6 +106,12 @@ impl Check for ConnectivityModel {
         // initial state
         if rig.engine.state.connectivity.global != Health::Reconnecting {
             bad!("initial-global", "global connectivity starts {:?}", rig.engine.state.connectivity.global);
+        }
+        for i in 0..n_ex {
+            let st = rig.engine.state.connectivity.connectivity_index(&barter_instrument::exchange::ExchangeIndex(i));
+            if st.market_data != Health::Reconnecting || st.account != Health::Reconnecting {
+                bad!("initial-link-flags", "before any event exchange {i} shows market {:?} / account {:?} (balances seeded through the builder: mask {:#b})", st.market_data, st.account, case.seed_balances);
+            }
         }
 
         for (n, ev) in case.events.iter().enumerate() {
@@ -105,10 +129,14 @@ impl Check for ConnectivityModel {
                         EvSpec::MarketL1 { inst, bid_q: Some((400, 1)), ask_q: Some((404, 2)), dt: 10 }
                     }
                 }
-                Kind::AccountItem => match ev.variant % 3 {
+                Kind::AccountItem => match ev.variant % 6 {
                     0 => EvSpec::Balance { asset: assets[ev.variant as usize % assets.len()] as u8, total: 100 + ev.variant as u32, dt: 10 },
                     1 => EvSpec::OrderOpen { cid: ev.variant as u16 % 5, inst, buy: true, filled: 1, dt: 10 },
-                    _ => EvSpec::Fill { inst, buy: ev.variant % 2 == 0, price_q: 400, qty: 10, fee_bp: 0, dt: 10 },
+                    2 => EvSpec::Fill { inst, buy: ev.variant % 2 == 0, price_q: 400, qty: 10, fee_bp: 0, dt: 10 },
+                    // what the execution manager reports when a request got no answer in time
+                    3 => EvSpec::CancelResp { cid: ev.variant as u16 % 5, inst, ok: false, dt: 10 },
+                    4 => EvSpec::OrderInactive { cid: ev.variant as u16 % 5, inst, buy: true, kind: crate::props::enginekit::InactiveKind::OpenTimedOut, dt: 10 },
+                    _ => EvSpec::CancelResp { cid: ev.variant as u16 % 5, inst, ok: true, dt: 10 },
                 },
                 Kind::MarketReconnecting => EvSpec::MarketReconnecting { ex: ex as u8 },
                 Kind::AccountReconnecting => EvSpec::AccountReconnecting { ex: ex as u8 },
@@ -179,6 +207,8 @@ impl Check for ConnectivityModel {
         rep.class_if(toggles >= 2, "global_toggled_twice");
         rep.class_if(toggles >= 1, "global_became_healthy");
         rep.class_if(!expected_calls.is_empty(), "has_disconnect_notice");
+        rep.class_if(case.seed_balances != 0, "state_built_with_seeded_balances");
+        rep.class_if(case.events.iter().any(|e| e.kind == Kind::AccountItem && matches!(e.variant % 6, 3 | 4)), "account_item_is_a_timeout_report");
         rep.nontrivial = n_ex >= 2 && toggles >= 2;
         rep
     }
@@ -205,13 +235,13 @@ fn enumerate(n_ex: u8, max_len: usize) -> impl Iterator<Item = ConnCase> {
                 events.push(alpha[idx % n]);
                 idx /= n;
             }
-            ConnCase { defs: defs.clone(), events }
+            ConnCase { defs: defs.clone(), events, seed_balances: 0 }
         })
     })
 }
 
 pub fn run(ctx: &mut Ctx) {
-    ctx.rule = "connectivity_model: 1..4 exchanges (each with >= 1 instrument), vec(event,0..40|80) over {market item (trade / L1), account item (balance / order report / fill), market reconnecting, account reconnecting} x exchange, processed by Engine::process from the initial all-reconnecting state. non-trivial = >= 2 exchanges and the global health flag changed at least twice; distinct by hash of the case. Exhaustive: every sequence over {4 kinds} x {2 exchanges} up to length 4 (quick) / {3 exchanges} up to length 4 and {2 exchanges} up to length 5 (thorough).".into();
+    ctx.rule = "connectivity_model: 1..4 exchanges (each with >= 1 instrument), vec(event,0..40|80) over {market item (trade / L1), account item (balance / order report / fill / cancel response ok or timed out / open request timed out), market reconnecting, account reconnecting} x exchange, processed by Engine::process from the initial all-reconnecting state (checked per link before the first event; in a third of the cases the state is built with balances seeded through the builder). non-trivial = >= 2 exchanges and the global health flag changed at least twice; distinct by hash of the case. Exhaustive: every sequence over {4 kinds} x {2 exchanges} up to length 4 (quick) / {3 exchanges} up to length 4 and {2 exchanges} up to length 5 (thorough).".into();
     ctx.assumptions = vec!["every exchange of the collection has at least one instrument (it is how an exchange enters the index)".into()];
     ctx.run_regressions::<ConnectivityModel>();
     ctx.run::<ConnectivityModel>(ctx.tier.pick(120_000, 2_000_000));
